@@ -18,7 +18,7 @@ def check_path(src, expected):
     r, _, _ = core.run_program({"main.ms": src}, cpu=10)
     if r.cls in ("wall_timeout", "spawn_error"):
         return {"inconclusive": r.cls}
-    if "Did not compile successfully" in r.err + r.out and core.BANNER not in r.err:
+    if core.compile_rejected(r):
         return {"rejected": (r.out + r.err)[-600:]}
     got = r.lines()
     problem = None
